@@ -695,6 +695,10 @@ class FTPWARCRecorderSession(BaseWARCRecorderSession):
         )
 
     def end_control(self, response: FTPResponse, connection_closed=False):
+        if not self._control_record:
+            # The connection could not be made: there was no conversation.
+            return
+
         hostname, port = self._request_hostname_port()
 
         if connection_closed:
